@@ -57,6 +57,19 @@ static std::string hex(const std::string& s) {
 
 static RimeApi* api;
 
+// command boundaries are marked in the hook log so that log lines can be
+// attributed to script commands
+static void mark(int index) {
+  const char* path = getenv("VERIF_DBLOG");
+  if (!path || !*path)
+    return;
+  FILE* f = fopen(path, "a");
+  if (!f)
+    return;
+  fprintf(f, "M\t%d\n", index);
+  fclose(f);
+}
+
 static void start(const char* shared, const char* user) {
   api = rime_get_api();
   RIME_STRUCT(RimeTraits, traits);
@@ -159,9 +172,11 @@ static int do_run(int argc, char** argv) {
   std::ifstream script(argv[4]);
   std::map<int, RimeSessionId> sessions;
   std::string line;
+  int index = 0;
   while (std::getline(script, line)) {
     if (line.empty())
       continue;
+    mark(index++);
     std::istringstream is(line);
     std::string cmd;
     is >> cmd;
@@ -251,6 +266,7 @@ static int do_run(int argc, char** argv) {
     }
     fflush(stdout);
   }
+  mark(index);
   for (auto& x : sessions)
     api->destroy_session(x.second);
   api->finalize();
